@@ -777,7 +777,7 @@ func solveAll(w *World, obls []*Obligation, timeoutS, seed int) {
 		return
 	}
 	for _, o := range obls {
-		if retried >= 5 {
+		if retried >= 4 {
 			break
 		}
 		if o.Expect != "unsat" || o.Result == nil || o.KnownFailing || (o.Clause != nil && o.Clause.Withdrawn) {
@@ -796,8 +796,12 @@ func solveAll(w *World, obls []*Obligation, timeoutS, seed int) {
 			continue
 		}
 		retried++
+		rt := timeoutS // on the unchanged tree every obligation answers within 5 s: 15 s alone is ample
+		if rt > 15 {
+			rt = 15
+		}
 		for _, sd := range []int{seed + 1, seed + 2} {
-			r := solve(o.Name+".retry", o.query(w), o.Values, timeoutS, sd, "")
+			r := solve(o.Name+".retry", o.query(w), o.Values, rt, sd, "")
 			if r.Status == "unsat" {
 				r.Solver += "+retry"
 				r.Ms += o.Result.Ms
